@@ -10,30 +10,45 @@ func isNullCell(c *table.Cell) bool {
 }
 
 type optShape struct {
-	mand     qclause
-	opts     []qclause
+	mand     xclause
+	opts     []xclause
+	okinds   []int // object kinds of the data (nil: node or text)
 	temporal bool
 	filter   string                  // FILTER clause on a binding of the mandatory clause
 	keep     func(d *dspec) bool     // the mandatory matches the FILTER keeps
 }
 
 var c10Shapes = []optShape{
-	{mand: qclause{s: bS, p: cA, o: bO}, opts: []qclause{{s: bO, p: cA, o: bZ}}},                  // optional continues from ?o
-	{mand: qclause{s: bS, p: cA, o: bO}, opts: []qclause{{s: bS, p: pos{cb: 'b'}, o: bZ}}},        // optional shares ?s
-	{mand: qclause{s: bS, p: cA, o: bO}, opts: []qclause{{s: bZ, p: pos{cb: 'b'}, o: bT}}},        // disjoint bindings
-	{mand: qclause{s: bS, p: cA, o: bO}, opts: []qclause{{s: bS, p: pos{cb: 'b'}, o: bO}}},        // optional adds no binding
-	{mand: qclause{s: bS, p: cA, o: bO}, opts: []qclause{{s: bS, p: pos{cb: 'b'}, o: bZ}, {s: bT, p: cA, o: bZ}}}, // second optional shares the (maybe NULL) ?z
-	{mand: qclause{s: bS, p: cA, o: bO}, opts: []qclause{{s: bS, p: pos{cb: 'b'}, o: bZ}, {s: bO, p: pos{cb: 'b'}, o: bT}}}, // two independent optionals
+	{mand: clSAO, opts: xqs(qclause{s: bO, p: cA, o: bZ})},                                               // optional continues from ?o
+	{mand: clSAO, opts: xqs(qclause{s: bS, p: pos{cb: 'b'}, o: bZ})},                                     // optional shares ?s
+	{mand: clSAO, opts: xqs(qclause{s: bZ, p: pos{cb: 'b'}, o: bT})},                                     // disjoint bindings
+	{mand: clSAO, opts: xqs(qclause{s: bS, p: pos{cb: 'b'}, o: bO})},                                     // optional adds no binding
+	{mand: clSAO, opts: xqs(qclause{s: bS, p: pos{cb: 'b'}, o: bZ}, qclause{s: bT, p: cA, o: bZ})},       // second optional shares the (maybe NULL) ?z
+	{mand: clSAO, opts: xqs(qclause{s: bS, p: pos{cb: 'b'}, o: bZ}, qclause{s: bO, p: pos{cb: 'b'}, o: bT})}, // two independent optionals
 	// a FILTER on the mandatory clause does not constrain the lookups of the optional one
-	{mand: qclause{s: bS, p: bP, o: bO}, opts: []qclause{{s: bO, p: pos{bind: "q"}, o: bZ}}, temporal: true, filter: "filter isTemporal(?p)",
+	{mand: xq(qclause{s: bS, p: bP, o: bO}), opts: xqs(qclause{s: bO, p: pos{bind: "q"}, o: bZ}), temporal: true, filter: "filter isTemporal(?p)",
 		keep: func(d *dspec) bool { return d.pk == 1 }},
-	{mand: qclause{s: bS, p: bP, o: bO}, opts: []qclause{{s: bS, p: pos{bind: "q"}, o: bZ}}, temporal: true, filter: "filter isImmutable(?p)",
+	{mand: xq(qclause{s: bS, p: bP, o: bO}), opts: xqs(qclause{s: bS, p: pos{bind: "q"}, o: bZ}), temporal: true, filter: "filter isImmutable(?p)",
 		keep: func(d *dspec) bool { return d.pk == 0 }},
+	// 8: an anchor binding in the optional clause: an immutable match shows ?t as NULL
+	{mand: xq(qclause{s: bS, p: bP, o: bO}), opts: []xclause{{qclause: qclause{s: bS, p: pos{cb: 'b'}, o: bZ, at: "t"}, lo: -1, hi: -1}}, temporal: true, okinds: []int{0}},
+	// 9: TYPE / ID extraction in the optional clause: NULL where it cannot apply
+	{mand: xq(qclause{s: bS, p: cA, o: bO}), opts: []xclause{{qclause: qclause{s: bS, p: pos{cb: 'b'}, o: bZ}, oType: "y", oID: "i", lo: -1, hi: -1}}, okinds: []int{0, 1}},
+	// 10: the optional clause shares ?t only through the anchor of a predicate in object position
+	{mand: xclause{qclause: qclause{s: bS, p: cA, o: bO, at: "t"}, lo: -1, hi: -1}, opts: []xclause{{qclause: qclause{s: bZ, p: pos{bind: "q"}, o: cA}, oAtBind: "t", lo: -1, hi: -1}}, temporal: true, okinds: []int{0, 4}},
+}
+
+func xqs(cs ...qclause) []xclause {
+	var out []xclause
+	for _, c := range cs {
+		out = append(out, xq(c))
+	}
+	return out
 }
 
 func optText(sh optShape) string {
-	all := append([]qclause{sh.mand}, sh.opts...)
-	bs := bindingsOf(all)
+	all := append([]xclause{sh.mand}, sh.opts...)
+	bs := xbindingsOf(all)
 	q := "select "
 	for i, b := range bs {
 		if i > 0 {
@@ -63,7 +78,14 @@ func HarnessC10Optional() {
 	K := 1 + verif.Choice("k", verif.Param("K", 2))
 	data := make([]*dspec, K)
 	for i := range data {
-		data[i] = symData("d", sh.temporal)
+		ok := sh.okinds
+		if ok == nil {
+			ok = []int{0, 1}
+		}
+		data[i] = symDataX("d", sh.temporal, ok, nil)
+	}
+	if cl := c03XClass(xshape{cs: append([]xclause{sh.mand}, sh.opts...)}, data); cl != "" {
+		verif.Class(cl)
 	}
 	// a literal bound to a binding that an optional clause uses as subject is the
 	// planner defect recorded under C03
@@ -103,7 +125,7 @@ func HarnessC10Optional() {
 	// every mandatory solution appears in at least one row
 	for i, d := range data {
 		e := env{}
-		c := verif.And(first[i], sh.mand.matches(d, e))
+		c := verif.And(first[i], sh.mand.xmatches(d, e, noWindow))
 		if sh.keep != nil && !sh.keep(d) {
 			c = false
 		}
@@ -124,10 +146,10 @@ func HarnessC10Optional() {
 	// exact left join for one optional clause
 	opt := sh.opts[0]
 	newBs := map[string]bool{}
-	for _, b := range bindingsOf([]qclause{opt}) {
+	for _, b := range xbindingsOf([]xclause{opt}) {
 		newBs[b] = true
 	}
-	for _, b := range bindingsOf([]qclause{sh.mand}) {
+	for _, b := range xbindingsOf([]xclause{sh.mand}) {
 		delete(newBs, b)
 	}
 	var conds []bool
@@ -139,7 +161,7 @@ func HarnessC10Optional() {
 	var exps []exp
 	for i, d := range data {
 		e0 := env{}
-		cm := verif.And(first[i], sh.mand.matches(d, e0))
+		cm := verif.And(first[i], sh.mand.xmatches(d, e0, noWindow))
 		if sh.keep != nil && !sh.keep(d) {
 			cm = false
 		}
@@ -149,8 +171,8 @@ func HarnessC10Optional() {
 			for k, v := range e0 {
 				e[k] = v
 			}
-			c := verif.And(cm, verif.And(first[j], opt.matches(d2, e)))
-			anyMatch = verif.Or(anyMatch, verif.And(first[j], opt.matches(d2, env(copyEnv(e0)))))
+			c := verif.And(cm, verif.And(first[j], opt.xmatchesOpt(d2, e, noWindow, true)))
+			anyMatch = verif.Or(anyMatch, verif.And(first[j], opt.xmatchesOpt(d2, env(copyEnv(e0)), noWindow, true)))
 			exps = append(exps, exp{c, e, false})
 			conds = append(conds, c)
 		}
